@@ -29,7 +29,7 @@ def design_and_cases(ctx):
                 mc = ("---- MODULE MC_%s ----\nEXTENDS Scripts, Json\n"
                       "ASSUME PrintT(<<\"TR\", ToJson([kind |-> Kind, other |-> OtherClass, writes |-> CallWrites, "
                       "expect |-> IF MayProceedBetweenCalls THEN \"proceeds\" ELSE \"blocked\"])>>)\n====\n" % name)
-                cfg = "SPECIFICATION Spec\n" + cfg_consts(Kind=kind, NCalls=3, CallWrites=cw, OtherClass=other, RoChecksWrites=True) + \
+                cfg = "SPECIFICATION Spec\n" + cfg_consts(Kind=kind, NCalls=3, CallWrites=cw, OtherClass=other, RoChecksWrites=True, DispatchBy="command") + \
                       "INVARIANT ScriptAtomic RoNoWriteInside RONeverWrites\n"
                 r = ctx.tlc(name, ["Scripts.tla"], mc, cfg, workers=2, timeout=300)
                 if not r["ok"]:
@@ -47,11 +47,12 @@ def design_and_cases(ctx):
                         break
     # vacuity guard: an EVALRO that does not refuse writes violates RONeverWrites
     mc = "---- MODULE MC_scr_dev ----\nEXTENDS Scripts\n====\n"
-    cfg = "SPECIFICATION Spec\n" + cfg_consts(Kind="evalro", NCalls=2, CallWrites=True, OtherClass="read", RoChecksWrites=False) + \
-          "INVARIANT RONeverWrites\n"
-    r = ctx.tlc("scr_dev", ["Scripts.tla"], mc, cfg, workers=2, timeout=300, expect_violation=True)
-    if r["violated"] != "RONeverWrites":
-        raise common.Infra("Scripts: the RoChecksWrites deviation is not detected (vacuous)")
+    for nm, rc_, by in (("scr_dev", False, "command"), ("scr_dev_dispatch", True, "script")):
+        cfg = "SPECIFICATION Spec\n" + cfg_consts(Kind="evalro", NCalls=2, CallWrites=True, OtherClass="read", RoChecksWrites=rc_,
+                                                  DispatchBy=by) + "INVARIANT RONeverWrites\n"
+        r = ctx.tlc(nm, ["Scripts.tla"], mc.replace("MC_scr_dev", "MC_" + nm), cfg, workers=2, timeout=300, expect_violation=True)
+        if r["violated"] != "RONeverWrites":
+            raise common.Infra("Scripts: the %s deviation is not detected (vacuous)" % nm)
     ctx.log("TLC Scripts: 12 configurations, %d states; ScriptAtomic / RoNoWriteInside / RONeverWrites hold; %d forced schedules generated"
             % (states, len(cases)))
     return states, trans, cases
@@ -85,6 +86,14 @@ def sandbox(ctx):
         attacks += 1
         if rec["script"] in ("mutate-existing-global", "stash-argv-in-library-table"):
             continue      # judged by the environment comparison after the attacks
+        if rec["script"].startswith("evalro-"):
+            # Scripts!DispatchBy: an EVALRO script that tries to have its calls run as EVAL's must not change data
+            if rec["probe"] == ":1":
+                common.report(ctx, "c18-sandbox-" + rec["script"],
+                              "EVALRO modified data: the script overwrote the global that names the variant its calls run as "
+                              "(`%s`), reply %s, and the object it SET exists afterwards (EXISTS -> %s)"
+                              % (rec.get("source", ""), rec["result"], rec["probe"]), {"kind": "sandbox", "record": rec})
+            continue
         if not rec["result"].startswith("-"):
             common.report(ctx, "c18-sandbox-attack-" + rec["script"],
                           "adversarial script '%s' was not refused: reply %s" % (rec["script"], rec["result"]),
@@ -100,7 +109,8 @@ def sandbox(ctx):
 
 
 POOL_KINDS = ["eval", "evalro", "evalna", "evalerr", "scan1", "scan2", "scan3", "within1", "within2", "scan1bad", "scan2bad",
-              "scan3bad", "nearby2bad", "scan2syn", "within1badarea", "within2badarea", "nested1", "nested2", "nestedro2", "nested2bad"]
+              "scan3bad", "nearby2bad", "scan2syn", "within1badarea", "within2badarea", "nested1", "nested2", "nestedro2", "nested2bad",
+              "setchan", "delchan", "fire", "evalfire", "evalshamiss", "evalsyntax"]
 
 
 def pool(ctx, only=None):
@@ -109,9 +119,16 @@ def pool(ctx, only=None):
     mc = ("---- MODULE MC_%%s ----\nEXTENDS ScriptPool, Json\nMCKinds == %s\n"
           "Emit == [][PrintT(<<\"TR\", ToJson([steps |-> hist'])>>)]_vars\n====\n" % common.tla_set(POOL_KINDS))
 
-    def cfg(steps, mode, emit):
-        return ("SPECIFICATION Spec\n" + cfg_consts(Ini=5, Kinds="<- MCKinds", MaxSteps=steps, OnParseError=mode) +
-                "VIEW View\nINVARIANT PoolSound ArgvKept Accounted\n" + ("PROPERTY Emit\n" if emit else ""))
+    # the number of interpreters the real server starts with
+    rc, pj, err = ctx.harness(["pool-replay", "-ini"], timeout=300)
+    ini = pj["ini"]
+    if not 1 <= ini <= 64:
+        raise common.Infra("the real pool starts with %s interpreters: outside what the specification is run for" % ini)
+
+    def cfg(steps, mode, emit, keeps="shared", inv="PoolSound ArgvKept Accounted", early="clears"):
+        return ("SPECIFICATION Spec\n" + cfg_consts(Ini=ini, Kinds="<- MCKinds", MaxSteps=steps, OnParseError=mode, HookKeeps=keeps,
+                                                    EarlyReturn=early) +
+                "VIEW View\nINVARIANT %s\n" % inv + ("PROPERTY Emit\n" if emit else ""))
     if only is not None:
         beh = os.path.join(ctx.scratch, "pool_replay.ndjson")
         open(beh, "w").write(json.dumps(only) + "\n")
@@ -129,10 +146,51 @@ def pool(ctx, only=None):
             if (mode == "perclause") != (r2["violated"] is not None):
                 raise common.Infra("ScriptPool with OnParseError=%s: expected %s, TLC says %s"
                                    % (mode, "a violation" if mode == "perclause" else "no violation", r2["violated"]))
+        # fences: as coded the clause's interpreter goes back to the pool while the fence keeps evaluating on it
+        hk = "PoolSound ArgvKept Accounted HookExclusive HookSeesOwn"
+        r3 = ctx.tlc("pool_hook_shared", ["ScriptPool.tla"], mc % "pool_hook_shared", cfg(3, "leak", False, "shared", hk),
+                     workers=4, timeout=600, expect_violation=True)
+        r4 = ctx.tlc("pool_hook_owned", ["ScriptPool.tla"], mc % "pool_hook_owned", cfg(3, "once", False, "owned", hk),
+                     workers=4, timeout=600)
+        r5 = ctx.tlc("pool_early_keeps", ["ScriptPool.tla"], mc % "pool_early_keeps", cfg(3, "leak", False, "shared", early="keeps"),
+                     workers=4, timeout=600, expect_violation=True)
+        if r5["violated"] != "PoolSound":
+            raise common.Infra("ScriptPool EarlyReturn=keeps: expected PoolSound to be refuted, TLC says %s" % r5["violated"])
+        if r3["violated"] not in ("HookExclusive", "HookSeesOwn") or r4["violated"] is not None:
+            raise common.Infra("ScriptPool HookKeeps: shared -> %s (expected HookExclusive/HookSeesOwn), owned -> %s (expected none)"
+                               % (r3["violated"], r4["violated"]))
+    # the accounting of every behaviour under every discipline the specification was checked for (first: as coded)
+    bl = [json.loads(l) for l in open(beh) if l.strip()]
+    seqs = "<<" + ", ".join("<<" + ", ".join('"%s"' % x["kind"] for x in b["steps"]) + ">>" for b in bl) + ">>"
+    alts = []
+    for mode, keeps in (("leak", "shared"), ("once", "shared"), ("leak", "owned"), ("once", "owned")):
+        nm = "pool_alt_%s_%s" % (mode, keeps)
+        amc = ("---- MODULE MC_%s ----\nEXTENDS ScriptPool, Json\nMCKinds == %s\nSeqs == %s\n"
+               "ASSUME \\A i \\in 1..Len(Seqs) : PrintT(<<\"VR\", ToJson([i |-> i, c |-> RunCounts(InitSt, Seqs[i], 1)])>>)\n====\n"
+               % (nm, common.tla_set(POOL_KINDS), seqs))
+        ra = ctx.tlc(nm, ["ScriptPool.tla"], amc, cfg(0, mode, False, keeps), workers=1, timeout=900)
+        if not ra["ok"]:
+            raise common.Infra("ScriptPool accounting run %s failed: %s" % (nm, ra["violated"]))
+        got = {}
+        for line in open(ra["out"], errors="replace"):
+            if line.startswith('<<"VR", '):
+                e = json.loads(json.loads(line.rstrip("\n")[len('<<"VR", '):-2]))
+                got[e["i"]] = e["c"]
+        if len(got) != len(bl):
+            raise common.Infra("ScriptPool accounting run %s: %d of %d behaviours evaluated" % (nm, len(got), len(bl)))
+        alts.append(got)
+    with open(beh, "w") as f:
+        for i, b in enumerate(bl):
+            for si, stp in enumerate(b["steps"]):
+                stp["alts"] = [a[i + 1][si] for a in alts]
+                if only is None and stp["alts"][0] != [stp["idle"], stp["total"]]:
+                    raise common.Infra("ScriptPool: RunCounts and the explored behaviour disagree on %s" % b)
+            f.write(json.dumps(b) + "\n")
     rc, js, err = ctx.harness(["pool-replay", "-in", beh, "-par", "16"], timeout=2400)
     st = js["stats"]
     ctx.log("interpreter pool: TLC %d states (as coded and with every taken interpreter closed once: sound; closed once per clause: "
-            "refuted); %d behaviours / %d steps replayed, pool audited after each step, %d mismatches"
+            "refuted; a fence's clause on a shared interpreter: refuted, on an owned one: sound); %d behaviours / %d steps replayed, "
+            "pool audited after each step, %d mismatches"
             % (r["distinct"], st["behaviours"], st["steps"], len(js.get("mismatches") or [])))
     behs = open(beh).read().split("\n")
     groups = {}
@@ -140,10 +198,17 @@ def pool(ctx, only=None):
         b = json.loads(behs[m["behaviour"]])
         kinds = [x["kind"] for x in b["steps"]][:m["step"] + 1]
         groups.setdefault((m["what"], kinds[-1]), []).append((m, b, kinds))
+    unexplained = None
     for (what, kind), ms in sorted(groups.items()):
         m, b, kinds = ms[0]
+        if what == "accounting":
+            # the counts follow none of the checked disciplines: the specification does not describe this pool - no verdict
+            unexplained = unexplained or "after %s: %s" % (" ; ".join(kinds), m["detail"])
+            continue
         common.report(ctx, "c18-pool-%s-%s" % (what, kind), "interpreter pool (%d behaviours) after %s: %s"
                       % (len(ms), " ; ".join(kinds), m["detail"]), {"kind": "pool", "behaviour": b})
+    if unexplained and not ctx.violations:
+        raise common.Infra("interpreter pool: " + unexplained)
     if st["steps"] == 0 or len(st["by_kind"]) < (len(POOL_KINDS) if only is None else 1):
         raise common.Infra("pool replay did not exercise every step kind (vacuous): %s" % st["by_kind"])
     return r, st
